@@ -222,9 +222,36 @@ def method(ci, name):
 
 def ret_exprs(fi):
     """returned expressions, with single-assignment locals substituted (`lengths = [...]; return sum(lengths)`)"""
-    from ..flatten import resolve_locals
-    return [resolve_locals(fi.node, n.value) for n in ast.walk(fi.node) if isinstance(n, ast.Return) and n.value is not None and not any(
-        isinstance(p, (ast.FunctionDef, ast.Lambda)) and p is not fi.node for p in parents(n))]
+    from ..flatten import resolve_locals, _Subst
+    from ..hints import paths_to
+    from ..loader import clone
+    out, seen = [], set()
+    for n in ast.walk(fi.node):
+        if not (isinstance(n, ast.Return) and n.value is not None) or any(
+                isinstance(p, (ast.FunctionDef, ast.Lambda)) and p is not fi.node for p in parents(n)):
+            continue
+        e0 = resolve_locals(fi.node, n.value)
+        cands = [e0]
+        nassign = {}
+        for a_ in ast.walk(fi.node):
+            if isinstance(a_, ast.Assign) and len(a_.targets) == 1 and isinstance(a_.targets[0], ast.Name):
+                nassign[a_.targets[0].id] = nassign.get(a_.targets[0].id, 0) + 1
+        if isinstance(e0, ast.Name) and nassign.get(e0.id, 0) >= 2:
+            # a local bound on several paths (`if c: r = A else: r = B; return r`): the value on each path
+            for path in paths_to(fi.node, n):
+                env = {}
+                for st in path.steps:
+                    if st[0] == "assign" and st[1] not in fi.params:
+                        env[st[1]] = _Subst(env).visit(clone(st[2])) if env else st[2]
+                if env:
+                    cands.append(_Subst(env).visit(clone(n.value)))
+            if len(cands) > 1:
+                cands = cands[1:]
+        for e in cands:
+            if norm(e) not in seen:
+                seen.add(norm(e))
+                out.append(e)
+    return out
 
 
 def prefix_sum_generator(m, name):
